@@ -17,17 +17,23 @@ import (
 	"github.com/pion/webrtc/v4/pkg/media"
 )
 
-type vstSample struct {
-	D    int64 `json:"d"`    // duration, nanoseconds
-	NP   int   `json:"np"`   // packets the sample is meant to span (0: empty data)
-	Drop int   `json:"drop"` // PrevDroppedPackets
+// one event of a behaviour: a WriteSample call, or Bind / Unbind of sender B between samples
+type vstEvent struct {
+	K    string `json:"k"`    // "sample" | "bind" | "unbind"
+	D    int64  `json:"d"`    // duration, nanoseconds
+	NP   int    `json:"np"`   // packets the sample is meant to span (0: empty data)
+	Drop int    `json:"drop"` // PrevDroppedPackets
+	B    int    `json:"b"`    // sender (bind / unbind)
+	ETs  int64  `json:"ets"`  // the model's timestamp offset for the sample (passed through for the drift report)
 }
 
 type vstVector struct {
-	ID      int         `json:"id"`
-	Rate    uint32      `json:"rate"`
-	Start   string      `json:"start"`
-	Samples []vstSample `json:"samples"`
+	ID     int        `json:"id"`
+	Rate   uint32     `json:"rate"`
+	Start  string     `json:"start"`
+	SeqOpt bool       `json:"seqopt"` // WithRTPSequenceNumber given
+	TsOpt  bool       `json:"tsopt"`  // WithRTPTimestamp given
+	Events []vstEvent `json:"events"`
 }
 
 type vstWriter struct {
@@ -61,6 +67,7 @@ func (w *vstWriter) take() []rtp.Header {
 }
 
 type vstCtx struct {
+	id    string
 	codec RTPCodecParameters
 	w     *vstWriter
 }
@@ -71,7 +78,7 @@ func (c *vstCtx) SSRC() SSRC                                      { return 0x123
 func (c *vstCtx) SSRCRetransmission() SSRC                        { return 0 }
 func (c *vstCtx) SSRCForwardErrorCorrection() SSRC                { return 0 }
 func (c *vstCtx) WriteStream() TrackLocalWriter                   { return c.w }
-func (c *vstCtx) ID() string                                      { return "verif" }
+func (c *vstCtx) ID() string                                      { return c.id }
 func (c *vstCtx) RTCPReader() interceptor.RTCPReader              { return nil }
 
 // vstCodec picks one of the default codecs that has the given clock rate.
@@ -119,41 +126,98 @@ func vstRun(t *testing.T, tr *vkTrace, v vstVector) {
 		seq0 = uint16(r.Intn(65536)) //nolint:gosec
 	}
 	codec := vstCodec(v.Rate, v.ID%2 == 1)
-	track, err := NewTrackLocalStaticSample(codec, "media", "verif", WithRTPTimestamp(ts0), WithRTPSequenceNumber(seq0))
+	opts := []func(*TrackLocalStaticRTP){}
+	if v.TsOpt {
+		opts = append(opts, WithRTPTimestamp(ts0))
+	}
+	if v.SeqOpt {
+		opts = append(opts, WithRTPSequenceNumber(seq0))
+	}
+	track, err := NewTrackLocalStaticSample(codec, "media", "verif", opts...)
 	if err != nil {
 		t.Fatal(err)
 	}
-	w := &vstWriter{}
-	ctx := &vstCtx{codec: RTPCodecParameters{RTPCodecCapability: codec, PayloadType: 100}, w: w}
-	if _, err := track.Bind(ctx); err != nil {
-		t.Fatalf("bind: %v", err)
+	ctxs := map[int]*vstCtx{}
+	for b := 1; b <= 2; b++ {
+		ctxs[b] = &vstCtx{id: fmt.Sprintf("b%d", b), codec: RTPCodecParameters{RTPCodecCapability: codec, PayloadType: PayloadType(99 + b)}, w: &vstWriter{}} //nolint:gosec
+	}
+	bound := map[int]bool{}
+	bind := func(b int) string {
+		if _, err := track.Bind(ctxs[b]); err != nil {
+			return "err"
+		}
+		bound[b] = true
+		return "ok"
+	}
+	tsref := "opt"
+	if !v.TsOpt {
+		tsref = "first" // timestamps are reported relative to the first packet seen
 	}
 	tr.Emit(vkM{"ev": "start", "t": v.ID, "sig": fmt.Sprintf("start(%s,%d,%s)", codec.MimeType, v.Rate, v.Start),
-		"rate": int(v.Rate), "seq0": int(seq0), "mime": codec.MimeType})
+		"rate": int(v.Rate), "seqopt": v.SeqOpt, "seq0": int(seq0), "tsopt": v.TsOpt, "tsref": tsref, "mime": codec.MimeType})
+	tr.Emit(vkM{"ev": "bind", "t": v.ID, "sig": "Bind(b1)", "b": 1, "res": bind(1)})
 	big := make([]byte, 2*1187+200)
 	for i := range big {
 		big[i] = byte(i*7 + 1)
 	}
-	for k, s := range v.Samples {
+	ref, haveRef := ts0, v.TsOpt
+	nsample := 0
+	for _, e := range v.Events {
+		switch e.K {
+		case "bind":
+			tr.Emit(vkM{"ev": "bind", "t": v.ID, "sig": fmt.Sprintf("Bind(b%d)", e.B), "b": e.B, "res": bind(e.B)})
+			continue
+		case "unbind":
+			res := "ok"
+			if err := track.Unbind(ctxs[e.B]); err != nil {
+				res = "err"
+			} else {
+				delete(bound, e.B)
+			}
+			tr.Emit(vkM{"ev": "unbind", "t": v.ID, "sig": fmt.Sprintf("Unbind(b%d)", e.B), "b": e.B, "res": res})
+			continue
+		}
 		var data []byte
 		switch {
-		case s.NP == 1:
+		case e.NP == 1:
 			data = big[:50+r.Intn(200)]
-		case s.NP > 1:
-			data = big[:(s.NP-1)*1187+200]
+		case e.NP > 1:
+			data = big[:(e.NP-1)*1187+200]
 		}
-		w.take()
-		err := track.WriteSample(media.Sample{Data: data, Duration: time.Duration(s.D), PrevDroppedPackets: uint16(s.Drop)}) //nolint:gosec
+		for b := 1; b <= 2; b++ {
+			ctxs[b].w.take()
+		}
+		err := track.WriteSample(media.Sample{Data: data, Duration: time.Duration(e.D), PrevDroppedPackets: uint16(e.Drop)}) //nolint:gosec
 		res := "ok"
 		if err != nil {
 			res = "err"
 		}
-		pk := []any{}
-		for _, h := range w.take() {
-			pk = append(pk, vkM{"seq": int(h.SequenceNumber), "tsd": int64(int32(h.Timestamp - ts0)), "m": h.Marker}) //nolint:gosec
+		recv := []any{}
+		npk := 0
+		for b := 1; b <= 2; b++ {
+			hs := ctxs[b].w.take()
+			if !bound[b] && len(hs) == 0 {
+				continue
+			}
+			pk := []any{}
+			for _, h := range hs {
+				if !haveRef {
+					ref, haveRef = h.Timestamp, true
+				}
+				pk = append(pk, vkM{"seq": int(h.SequenceNumber), "tsd": int64(int32(h.Timestamp - ref)), "m": h.Marker}) //nolint:gosec
+			}
+			if len(recv) == 0 {
+				npk = len(pk)
+			}
+			recv = append(recv, vkM{"b": b, "bound": bound[b], "pk": pk})
 		}
-		tr.Emit(vkM{"ev": "sample", "t": v.ID, "k": k,
-			"sig": fmt.Sprintf("WriteSample(rate=%d,d=%d,drop=%d,np=%d)", v.Rate, s.D, s.Drop, len(pk)),
-			"d": s.D, "drop": s.Drop, "pk": pk, "res": res})
+		nb := 0
+		for range bound {
+			nb++
+		}
+		tr.Emit(vkM{"ev": "sample", "t": v.ID, "k": nsample,
+			"sig": fmt.Sprintf("WriteSample(rate=%d,d=%d,drop=%d,np=%d,senders=%d,seqopt=%v)", v.Rate, e.D, e.Drop, npk, nb, v.SeqOpt),
+			"d": e.D, "drop": e.Drop, "recv": recv, "ets": e.ETs, "res": res})
+		nsample++
 	}
 }
